@@ -85,7 +85,7 @@ class JWTBearerClientAssertion:
             # https://tools.ietf.org/html/rfc7523#section-3
             # For client authentication, the subject MUST be the
             # "client_id" of the OAuth client
-            client_id = payload["sub"]
+            client_id = payload.get("sub")
             client = query_client(client_id)
             if not client:
                 raise InvalidClientError(
